@@ -92,6 +92,8 @@ func (c *replacerCompiler) compile(v reflect.Value) Replacer {
 		return c.compileForStmt(v)
 	case goast.StarExprPtrType:
 		return starExprReplacer{Replacer: c.compileGeneric(v)}
+	case goast.FuncTypePtrType, goast.IndexListPtrType:
+		return canonicalReplacer{Replacer: c.compileGeneric(v)}
 	case goast.CommentGroupPtrType:
 		// TODO: We're currently ignoring comments in the replacement patch.
 		// We should probably record them and report them in the top-level
@@ -148,4 +150,44 @@ func starOperand(x ast.Expr) ast.Expr {
 		return x
 	}
 	return &ast.ParenExpr{Lparen: x.Pos(), X: x, Rparen: x.End()}
+}
+
+// canonicalReplacer replaces nodes with lists that an elision can shorten
+// into a form that go/parser never produces for the text go/printer prints
+// for them: a result list without results, a parenthesized result list with
+// just one unnamed result, a list of type arguments with just one of them.
+//
+// The nodes are turned into what the parser would have produced so that
+// changes following in the same patch match them like they match the printed
+// file.
+type canonicalReplacer struct{ Replacer }
+
+func (r canonicalReplacer) Replace(d data.Data, cl Changelog, pos token.Pos) (reflect.Value, error) {
+	v, err := r.Replacer.Replace(d, cl, pos)
+	if err != nil {
+		return v, err
+	}
+
+	switch n := v.Interface().(type) {
+	case *ast.FuncType:
+		if n == nil || n.Results == nil {
+			break
+		}
+		switch res := n.Results; {
+		case len(res.List) == 0:
+			n.Results = nil
+		case len(res.List) == 1 && len(res.List[0].Names) == 0:
+			res.Opening, res.Closing = token.NoPos, token.NoPos
+		}
+	case *ast.IndexListExpr:
+		if n != nil && len(n.Indices) == 1 {
+			return reflect.ValueOf(&ast.IndexExpr{
+				X:      n.X,
+				Lbrack: n.Lbrack,
+				Index:  n.Indices[0],
+				Rbrack: n.Rbrack,
+			}), nil
+		}
+	}
+	return v, nil
 }
